@@ -109,6 +109,8 @@ class SymX:
         self.rng_limbs = {}         # z3 var name -> (var, [limb classes, little endian]) of collapsed limbs
         self.rng_bools = {}         # z3 Bool name -> (var, limb class) for 1-limb collapses
         self.elim_classes = set()   # inverse-hint wires eliminated by the is_equal rewrite
+        self.hexpr = {}             # z3 expr id -> [(var, offset, bits, is_bool)]: pure positional hint expressions
+        self.skolems = []           # (hint positional expr, E): defining equations  E == sum var*2^offset
         self.input_classes = set()
         for n in (inputs or []):
             self.input_classes.update(self.ir["named"][n])
@@ -437,6 +439,7 @@ class SymX:
             self.pos_apps.append((kind, ins, outs))
         o = self.poscache[key][i]
         self.asserts.append(z3.And(o >= 0, o < P))
+        self.defs.append(self.asserts[-1])      # codomain axiom of the uninterpreted permutation, not a circuit check
         return T.integer(o, 0, P - 1)
 
     def eval_bsum(self, r):
@@ -468,10 +471,12 @@ class SymX:
                 self.nfresh += 1
                 bvar = z3.Bool(f"{self.prefix}rb{r}_{self.nfresh}")
                 self.rng_bools[str(bvar)] = (bvar, limbs[0])
+                self.hexpr[bvar.get_id()] = [(bvar, 0, 1, True)]
                 return T.boolean(bvar)
             x = self.fresh_int(f"rng{r}", 0, (1 << free_prefix) - 1)
             self.range_vars[str(x)] = (x, free_prefix)
             self.rng_limbs[str(x)] = (x, [c for c in limbs[:free_prefix]])
+            self.hexpr[x.get_id()] = [(x, 0, free_prefix, False)]
             return T.integer(x, 0, (1 << free_prefix) - 1)
         tot = z3.IntVal(0)
         lo = hi = 0
@@ -491,7 +496,22 @@ class SymX:
                 tot = tot + t.v * (1 << idx)
                 hi += 1 << idx
         assert hi < P
-        return T.integer(z3.simplify(tot), lo, hi)
+        e = z3.simplify(tot)
+        he, pure = [], True
+        for idx, c in enumerate(limbs):
+            t = self.terms.get(c)
+            if t is None or t.k == "c":
+                if t is not None and t.v != 0:
+                    pure = False
+                continue
+            fv = self.freevars.get(c)
+            if t.k == "b" and fv is not None and z3.is_bool(fv) and t.v.eq(fv):
+                he.append((fv, idx, 1, True))
+            else:
+                pure = False
+        if pure and he:
+            self.hexpr[e.get_id()] = he
+        return T.integer(e, lo, hi)
 
     def mulmod_terms(self, x, y):
         """product of two typed terms as (z3 int expr or T, lo, hi) before scaling"""
@@ -611,12 +631,28 @@ class SymX:
             lo += min(cf * tl, cf * th)
             hi += max(cf * tl, cf * th)
         qlo, qhi = lo // P, hi // P
+        # positional recomposition of pure hint expressions (e.g. lo + 2^32*hi of split_low_high)
+        he = None
+        if const == 0 and all(cf > 0 and (cf & (cf - 1)) == 0 for cf, _ in parts):
+            he = []
+            for cf, t in parts:
+                key = t.v.get_id() if t.k in ("i", "b") else None
+                sub = self.hexpr.get(key)
+                if sub is None:
+                    he = None
+                    break
+                he += [(v, off + cf.bit_length() - 1, bits, isb) for (v, off, bits, isb) in sub]
         if qlo == qhi:
-            return T.integer(S - qlo * P, lo - qlo * P, hi - qlo * P)
+            e = S - qlo * P
+            if he:
+                self.hexpr[e.get_id()] = he
+            return T.integer(e, lo - qlo * P, hi - qlo * P)
         if qhi - qlo <= 2:
             e = S - qhi * P
             for q in range(qhi - 1, qlo - 1, -1):
                 e = z3.If(S < (q + 1) * P, S - q * P, e)
+            if he:
+                self.hexpr[e.get_id()] = he
             return T.integer(e, 0, P - 1)
         self.stats["qvars"] += 1
         out = self.fresh_int("o", 0, P - 1)
@@ -665,6 +701,7 @@ class SymX:
                     if t.v != t2.v:
                         self.asserts.append(z3.BoolVal(False))
                     continue
+                self._note_skolem(t, t2)
                 if t.k == "b" and t2.k == "b":
                     self.asserts.append(t.v == t2.v)
                 elif t.k == "c" and t2.k == "b":
@@ -683,6 +720,45 @@ class SymX:
                     self.asserts.append(z3.BoolVal(False))
             elif t.k == "i":
                 self.asserts.append(z3.Or(t.v == 0, t.v == 1))
+
+    def _hkey(self, t):
+        return t.v.get_id() if t.k in ("i", "b") else None
+
+    def _note_skolem(self, t, t2):
+        """t and t2 are two definitions of one wire class; if one is a pure positional hint expression,
+        the other is the value the hints must decompose (defining equation for Skolemisation)"""
+        h2, h1 = self.hexpr.get(self._hkey(t2)), self.hexpr.get(self._hkey(t))
+        if h2 is not None and h1 is None:
+            self.skolems.append((h2, t.as_int()))
+        elif h1 is not None and h2 is None:
+            self.skolems.append((h1, t2.as_int()))
+
+    def skolem_facts(self):
+        """Existential hint wires are pinned to THE digits of the value they decompose (what plonky2's
+        split/range generators compute), stated without div/mod: the integer equation
+        E == sum(var * 2^offset) with every var inside its digit range has exactly one solution when
+        0 <= E < 2^width, so adding it is a total definition provided the 'fits' obligation holds.
+        Returns (facts, fits_obligations, vars_done)."""
+        facts, fits, done = [], [], set()
+        for he, E in self.skolems:
+            if any(v.get_id() in done for (v, _, _, _) in he):
+                continue
+            width = max(off + bits for (_, off, bits, _) in he)
+            terms = []
+            for (v, off, bits, isb) in he:
+                done.add(v.get_id())
+                if isb:
+                    terms.append(z3.If(v, z3.IntVal(1 << off), z3.IntVal(0)))
+                else:
+                    terms.append(v * (1 << off))
+                    facts.append(z3.And(v >= 0, v < (1 << bits)))
+            covered = sum(((1 << bits) - 1) << off for (_, off, bits, _) in he)
+            facts.append(E == z3.Sum(terms))
+            if covered == (1 << width) - 1:
+                fits.append(z3.And(E >= 0, E < (1 << width)))
+            else:
+                fits.append(None)   # digits with gaps: totality not claimed for this group
+        return facts, fits, done
 
     def named(self, n):
         return [self.terms[c] for c in self.ir["named"][n]]
